@@ -26,6 +26,16 @@ def build(cfg):
     r4 = Signal(2, name="r4", init=3)          # one signal, bits split between the two domains
     s.d[cfg["d1"]] += r4[0].eq(d)
     s.d[cfg["d2"]] += r4[1].eq(d)
+    # a one-bit memory row inside S: write port in d1 (data d), read port in d2, transparent read port in d1
+    from amaranth.lib.memory import Memory
+    mem = Memory(shape=1, depth=2, init=[1, 0])
+    s.submodules.mem = mem
+    wp = mem.write_port(domain=cfg["d1"])
+    rp = mem.read_port(domain=cfg["d2"])
+    rt = mem.read_port(domain=cfg["d1"], transparent_for=(wp,))
+    s.d.comb += [wp.addr.eq(0), wp.data.eq(d), wp.en.eq(1), rp.addr.eq(0), rt.addr.eq(0)]
+    mr, mt = Signal(name="mr"), Signal(name="mt")       # named copies of the read port outputs (ports of the RTLIL)
+    top.d.comb += [mr.eq(rp.data), mt.eq(rt.data)]
     wrapped = s
     for w in cfg["ws"]:
         if w["k"] == "reset":
@@ -42,7 +52,7 @@ def build(cfg):
     ka, kb = Signal(name="ka"), Signal(name="kb")
     top.d.A += ka.eq(~ka)
     top.d.B += kb.eq(~kb)
-    sigs = {"d": d, "c1": c["c1"], "c2": c["c2"], "r1": r1, "r2": r2, "r3": r3, "r4": r4,
+    sigs = {"d": d, "c1": c["c1"], "c2": c["c2"], "r1": r1, "r2": r2, "r3": r3, "r4": r4, "mw": mem.data[0], "mr": mr, "mt": mt,
             "clkA": cds["A"].clk, "clkB": cds["B"].clk}
     if cfg["A"]["rst"] != "none":
         sigs["rstA"] = cds["A"].rst
@@ -52,7 +62,7 @@ def build(cfg):
 
 
 def run(cfg, events):
-    """events: list of ("clk", ca, cb) | ("set", name, value). Returns list of (r1, r2, r3, r4) after each event."""
+    """events: list of ("clk", ca, cb) | ("set", name, value). Returns list of (r1, r2, r3, r4, mw, mr, mt) after each event."""
     top, sigs = build(cfg)
     sim = Simulator(top)
     out = []
@@ -63,7 +73,8 @@ def run(cfg, events):
                 ctx.set(Cat(sigs["clkA"], sigs["clkB"]), ev[1] | (ev[2] << 1))
             else:
                 ctx.set(sigs[ev[1]], ev[2])
-            out.append((ctx.get(sigs["r1"]), ctx.get(sigs["r2"]), ctx.get(sigs["r3"]), ctx.get(sigs["r4"])))
+            out.append((ctx.get(sigs["r1"]), ctx.get(sigs["r2"]), ctx.get(sigs["r3"]), ctx.get(sigs["r4"]),
+                        ctx.get(sigs["mw"]), ctx.get(sigs["mr"]), ctx.get(sigs["mt"])))
 
     sim.add_testbench(tb)
     sim.run()
